@@ -43,7 +43,7 @@ CHECKS = {
         "category": "exploration",
         "text": "Two seeded simulators. (A) histories: operation sequences (docutils parses to doctree/HTML with fresh or long-lived reused settings, Parser, renderer and MdParserConfig objects; in-process Sphinx builds, also sharing one confoverrides mapping; the myst-docutils-*/myst-anchors/myst-inv entry points; to_html5_demo with varying options; parses aborted by docutils' halt level; operations cut short by KeyboardInterrupt at an arbitrary I/O call; mutation of returned objects; file edits; regex-cache bursts) executed in one long-lived process forked from a pristine zygote and compared, operation by operation, with the same operation executed first in a pristine process (I-EQ); long-lived configuration objects are snapshotted and re-checked after every step (I-CFG). (B) schedules: Sphinx projects built serially (reference), in shuffled read orders and under a simulated ParallelTasks whose document-to-worker partition, fork points and merge order are drawn from the seed (I-PAR), with complete sweeps of every partition for four-document projects; plus incremental rebuilds (full build, seeded edits of documents / include files / configuration with simulator-owned mtimes, then a second build of the outdated documents serially vs under a simulated schedule), where re-read documents must equal a fresh build (I-INC) and documents whose included file changed must be re-read (I-DEP). Seeded sampling of histories and schedules: evidence, not proof; the partition sweeps are complete over their stated finite space.",
         "design_ref": "DESIGN.md §5",
-        "note": "Reference = the real code in a pristine process, so a change that alters fresh-state and history output alike is invisible by construction. amsmath labels come from a simulator-owned label source (the repository's own _random_label seam). Upstream process-global state of docutils/Sphinx (role/directive lookup caches, local roles) is kept out of the workload (DESIGN §5.6). Workers are modelled as sequential isolated forks: exact for in-memory state.",
+        "note": "Reference = the real code in a pristine process, so a change that alters fresh-state and history output alike is invisible by construction. amsmath labels come from a simulator-owned label source (uuid4, interposed beneath the repository's _random_label, which stays real code). Upstream process-global state of docutils/Sphinx (role/directive lookup caches, local roles) is kept out of the workload (DESIGN §5.6). Workers are modelled as sequential isolated forks: exact for in-memory state.",
         "technique": "deterministic simulation: seeded history and parallel-schedule search with a pristine-process reference, simulated Sphinx ParallelTasks, replayable minimised plans",
     },
     "C01": {
@@ -82,7 +82,7 @@ def build(claimed):
         "setup_cmd": f"{PY} bin/check setup",
         "hooks": {
             "guard": "MYST_PARSER_VERIF",
-            "enable": "none needed: every seam is interposed from /verif (monkeypatched open/stat/urlopen/ParallelTasks/_random_label/time inside forked run processes); the guard name is reserved and unused, /repo carries no hook",
+            "enable": "none needed: every seam is interposed from /verif (monkeypatched open/stat/urlopen/ParallelTasks/uuid4/time inside forked run processes); the guard name is reserved and unused, /repo carries no hook",
             "baseline_off_cmd": "cd /repo && /venv/bin/python -m pytest -ra -q -p no:cacheprovider --timeout=900 --continue-on-collection-errors",
             "source_commits": [],
             "add_only": True,
